@@ -35,6 +35,10 @@ SKELETONS = {
     "media": ("@media (min-width: 10px) {{ p {{ color: {T0}; background-color: {B0}; }} }}\n", [dict(sel="p", text="T0", bg="B0")]),
     "supports": ("@supports (display: grid) {{ .g {{ color: {T0}; }} }}\nq {{ color: {T1}; }}\n",
                  [dict(sel=".g", text="T0", bg=None), dict(sel="q", text="T1", bg=None)]),
+    "nested2": ("@media (min-width: 600px) {{ @supports (display: grid) {{ .n {{ color: {T0}; background-color: {B0}; }} }} }}\n",
+                [dict(sel=".n", text="T0", bg="B0")]),
+    "nested3": ("@supports (display: flex) {{ @media print {{ @media (min-width: 1px) {{ .d {{ color: {T0}; }} }} u {{ color: {T1}; }} }} }}\n",
+                [dict(sel=".d", text="T0", bg=None), dict(sel="u", text="T1", bg=None)]),
     "root-var": (":root {{ --c: {T0}; }}\np {{ color: var(--c); }}\n", [dict(sel="p", text="T0", bg=None, var="--c")]),
     "html-var-bg": ("html {{ --c: {T0}; --b: {B0}; }}\np {{ color: var(--c); background-color: var(--b); }}\n",
                     [dict(sel="p", text="T0", bg="B0", var="--c")]),
@@ -47,7 +51,7 @@ SKELETONS = {
     "html-color": ("html {{ color: {T0}; background-color: {B0}; }}\n", [dict(sel="html", text="T0", bg="B0")]),
 }
 
-QUICK = ["plain", "with-bg", "two-rules", "important", "repeated", "comment-other-decls", "media", "supports", "root-var", "html-var-bg",
+QUICK = ["plain", "with-bg", "two-rules", "important", "repeated", "comment-other-decls", "media", "supports", "nested2", "nested3", "root-var", "html-var-bg",
          "chained-var", "var-fallback", "var-undefined-fallback", "shared-var", "root-color", "html-color"]
 
 META = dict(
@@ -71,7 +75,7 @@ META = dict(
             "of @media / @supports, custom properties in :root / html: direct, chained, with fallback, undefined with fallback, shared by two rules; "
             "colour declared directly in :root / html)" % len(SKELETONS),
             "colours: rgb() with all 8-bit values; --mode in {0,1,2}, --premium, --default-bg white / a symbolic rgb()"],
-    outside=["every stylesheet that is not an instance of a listed skeleton; nesting deeper than one at-rule; strings, url(), escapes; other colour spellings "
+    outside=["every stylesheet that is not an instance of a listed skeleton; nesting deeper than three at-rules; strings, url(), escapes; other colour spellings "
              "inside stylesheets; the HTML report cards; byte-level preservation (C09, n/a)"],
     trusted=["z3 (sequence/regex theory, arithmetic)", "tinycss2 (runs for real)", "click (callback invoked directly)"],
     assumptions=["tokens are treated by tinycss2 as identifiers inside a function block (checked on every run: serialize(parse(css)) == css)"],
@@ -314,7 +318,7 @@ def _collect(tinycss2, css):
                             v += " !important"
                         outd[(sel, d.name)] = v
             elif n.type == "at-rule" and n.content:
-                rules(tinycss2.parse_rule_list(n.content, skip_whitespace=True, skip_comments=True))
+                rules(tinycss2.parse_rule_list(n.content, skip_whitespace=True, skip_comments=True))   # any depth
 
     rules(tinycss2.parse_stylesheet(css, skip_whitespace=True, skip_comments=True))
     return outd
